@@ -131,13 +131,18 @@ def known (s : MState) (rank : String) : Bool :=
 def typesOf (s : MState) (rank : String) : List String :=
   (s.traces.filter (fun e => e.1.1 == rank)).map (·.1.2)
 
-/-- `Metrics._writeTrace`: append the cached rows to the file, empty the cache, mark started -/
+/-- what `_writeTrace` finds in the file it writes to: a started trace appends (mode "a"), a trace
+    that was never started begins a new file (mode "w") -/
+def fileBase (s : MState) (k : FKey) (started : Bool) : List Row :=
+  if started then (dget s.fs k).getD [] else []
+
+/-- `Metrics._writeTrace`: write the cached rows to the file, empty the cache, mark started -/
 def writeTrace (s : MState) (rank ty : String) : Option MState :=
   match dget s.traces (rank, ty), s.pfx with
   | some tr, some p =>
     match tr.file with
     | some f =>
-      some { s with fs := dset s.fs (p, rank, ty) ((dget s.fs (p, rank, ty)).getD [] ++ f),
+      some { s with fs := dset s.fs (p, rank, ty) (fileBase s (p, rank, ty) tr.started ++ f),
                     traces := dset s.traces (rank, ty) { tr with file := some [], started := true } }
     | none => none
   | _, _ => none
